@@ -1366,7 +1366,7 @@ PROPNAME = {"date": "Date", "expires": "Expires", "last_modified": "Last-Modifie
 
 CHECK = Check(
     prop="C16",
-    gen=["Containers", "Views", "ResponseProps", "PyFns_Headers", "PyFns_HeaderSet", "Http", "PyFns_Http", "PyFns_Internal", "PyFns_HttpDict"],
+    gen=["Containers", "Views", "ResponseProps", "CacheSetTable", "PyFns_Headers", "PyFns_HeaderSet", "Http", "PyFns_Http", "PyFns_Internal", "PyFns_HttpDict"],
     modules=["WzVerif.Props.C16", "WzVerif.Props.C08T", "WzVerif.Props.C16T"],
     streams=[ViewsStream(), SharedViewsStream(), ScalarStream()],
     assumptions=[
